@@ -508,17 +508,19 @@ impl SlabRouter {
             // embedding, under the entity id valid at replay time. A separate
             // embedding record could be applied alone after a crash between
             // the two appends, leaving a value that mixes two writes.
-            if let Some(TensorValue::Vector(_)) = value.get("_embedding") {
-                // Replay registers the key in the entity index; do the same here.
-                let _ = self.index.get_or_create(key);
-            }
-
             // Log metadata set (sync behavior depends on WalConfig::sync_mode)
             wal.append(&WalEntry::MetadataSet {
                 key: key.to_string(),
                 data: value.clone(),
             })
             .map_err(|e| SlabRouterError::WalError(format!("Failed to log put: {e}")))?;
+
+            if let Some(TensorValue::Vector(_)) = value.get("_embedding") {
+                // Replay registers the key in the entity index; do the same
+                // here, but only once the record is in the log: a rejected
+                // put must leave no trace of the key.
+                let _ = self.index.get_or_create(key);
+            }
             #[cfg(feature = "neumann_verif")]
             crate::verif_hooks::yield_point("router.put_durable.after_log");
 
